@@ -172,8 +172,8 @@ func buildCorpus() []corpusEntry {
 	J("huge negative exponent", `1e-999999999`, num, str)
 	J("huge exponent in a string", `"1e999999999"`, num)
 	J("exponent overflowing int", `1e99999999999999999999`, num, str)
-	J("exponent 5678905 in a set", `{"k":[0.123e5678905]}`, obj("k", cty.Set(num)), obj("k", cty.List(num)))
-	J("exponent -5678905 in a set", `[1e-5678905]`, cty.Set(num), cty.List(num))
+	J("exponent 3000000 in a set", `{"k":[0.123e3000000]}`, obj("k", cty.Set(num)), obj("k", cty.List(num)))
+	J("exponent -100000 in a set", `[1e-100000]`, cty.Set(num), cty.List(num))
 	J("exponent 3000000 in a set inside a wrapper", `{"type":["set","number"],"value":[1e3000000]}`, dyn)
 	J("long mantissa", strings.Repeat("9", 5000)+"."+strings.Repeat("9", 5000), num, str)
 	J("Inf string as number", `"Inf"`, num)
@@ -215,7 +215,7 @@ func buildCorpus() []corpusEntry {
 	M("max uint64", hx("cf ffffffffffffffff"), num, str)
 	M("min int64", hx("d3 8000000000000000"), num)
 	M("number strings", hx("96 a3316535 a3496e66 a34e614e a0 a430783130 a5315f303030"), cty.List(num), tup(num, num, num, num, num, num))
-	M("exponent 5678905 string in a set", append(hx("91 a9"), []byte("1e5678905")...), cty.Set(num), cty.List(num))
+	M("exponent 3000000 string in a set", append(hx("91 a9"), []byte("1e3000000")...), cty.Set(num), cty.List(num))
 	M("F-21 empty array as tuple", []byte{0x90}, tup(str), tup(str, num), tup())
 	M("F-21 empty map as object", []byte{0x80}, obj("a", str), obj())
 	M("F-21 empty tuple inside a list", []byte{0x91, 0x90}, cty.List(tup(str)), cty.Set(tup(str)), cty.Map(tup(str)))
@@ -367,10 +367,10 @@ func sortedNames(mm map[string][]byte) []string {
 
 const corpusBase = 1_000_000_000
 
-// runCorpus executes the corpus: in batch 0 everything whose msgpack half is
-// not risky, in the first risk batch the risky msgpack halves (ascending size,
-// as listed).
-func runCorpus(e *executor, riskBatch bool) {
+// runCorpus executes the corpus on every run: entry i in regular batch
+// i mod nRegular (everything whose msgpack half is not risky), and in the first
+// risk batch the risky msgpack halves, ascending by declared size.
+func runCorpus(e *executor, riskBatch bool, nRegular int) {
 	type item struct {
 		idx    int64
 		ce     corpusEntry
@@ -403,6 +403,9 @@ func runCorpus(e *executor, riskBatch bool) {
 		case riskBatch && isRisky:
 			e.runCase(idx, tc, famMP)
 		case !riskBatch:
+			if int((idx-corpusBase)%int64(nRegular)) != e.c.Batch {
+				continue // the corpus is dealt round-robin over the regular batches
+			}
 			fam := ce.fam
 			if isRisky {
 				fam &^= famMP
